@@ -771,3 +771,22 @@ addendum('C16', 'R17: get_sort / get_bv_width / get_bv_constant_value '
          '"unknown", and only "unknown" for an operand of unknown width '
          '(sa/probes.py).')
 
+
+# ---- round 14 (DESIGN.md 8.4, "Round 14")
+addendum('C04', 'R24: literal string keys read from the record '
+         'dictionaries of the bookkeeping are keys the records are created '
+         'with; R25: nullable fields of the run record are not formatted '
+         'with a format specification outside a None test.')
+addendum('C09', 'R6 also requires a stem without "." for the candidate '
+         'file name.')
+addendum('C06', 'R1 also requires the temporary to be opened truncating '
+         'or exclusively.')
+addendum('C12', 'R4 also requires the id counter to start at a value >= 0 '
+         '(ids are tested for truth).')
+addendum('C02', 'R17: get_pass hands out element i and reduce() asks for '
+         '0 .. len(passes)-1 in order; R18 = C12.R4 + C12.R11.')
+addendum('C13', 'R8 = C12.R4 + C12.R11.')
+addendum('C14', 'R17 = C02.R17.')
+addendum('C01', 'R15 = C09.R12 (sa/streams.py); R11 takes all of C09.R4.')
+addendum('C07', 'R15 = C08.R5.')
+
